@@ -20,7 +20,7 @@ LEVEL = 'exploration'
 RULE = ('scripted dialogue children (raw mode; prompts, payloads of 0..300 KB, pauses shorter/longer than the timeout, exit code) '
         'that record what they printed and every response line they received, with sequence numbers; event tables as dict and '
         'list, responses as string / function / bound method, callbacks returning None / a string / True, EOF and TIMEOUT as '
-        'event keys, overlapping patterns in list order, bytes and unicode. run() must return exactly what the child printed '
+        'event keys, overlapping patterns in list order, floods of hundreds of event occurrences streamed without waiting (each must be answered once, in order), bytes and unicode. run() must return exactly what the child printed '
         'up to the stop point (EOF, timeout, callback returning true), each piece once; the child must have received exactly '
         'the expected responses, once each, in order; callbacks must see event_count and child; withexitstatus the real '
         'code; run() must return (20 s watchdog = refuting event). non-trivial = >=2 prompts answered or an EOF/TIMEOUT '
@@ -28,14 +28,29 @@ RULE = ('scripted dialogue children (raw mode; prompts, payloads of 0..300 KB, p
 ASSUMPTIONS = ['the dialogue child is in raw mode, so the tty neither echoes nor rewrites bytes',
                'a violation is reported only if it reproduces in two further serial runs of the same dialogue',
                'pauses are either <= T/6 or >= 2.5 T (T = 1.0 s) so that which side of the timeout they fall on does not depend on load']
-REQUIRED = ['runs', 'responses_checked', 'output_bytes_compared', 'callback_invocations', 'eof_event_runs', 'timeout_event_runs',
+REQUIRED = ['runs', 'flood_occurrences_checked', 'responses_checked', 'output_bytes_compared', 'callback_invocations', 'eof_event_runs', 'timeout_event_runs',
             'exit_status_checks', 'list_form', 'dict_form']
 
 DIALOGUE = os.path.join(PEERS, 'dialogue.py')
 T = 1.0
 
 
+def gen_flood(rng):
+    """The child streams many occurrences of one event pattern without waiting for answers (the callback only
+    records them): occurrences straddle every kind of read boundary."""
+    enc = rng.choice([None, 'utf-8'])
+    n = rng.choice([300, 700, 1500])
+    fill = rng.choice([0, 3, 11])
+    body = ''.join('<<%05d>>%s' % (i, '.' * fill) for i in range(n)) + 'END'
+    code = rng.choice([0, 3])
+    return {'enc': enc, 'flood': n, 'steps': [['pause', 0.05], ['print', body.encode().hex()], ['exit', code]],
+            'events': [], 'overlap': None, 'form': rng.choice(['dict', 'list']), 'eof_event': None, 'timeout_event': None,
+            'code': code, 'stop_at': None, 'withexitstatus': True, 'runu': False, 'T': 20}
+
+
 def gen_case(rng):
+    if rng.random() < 0.12:
+        return gen_flood(rng)
     enc = rng.choice([None, 'utf-8'])
     nprompts = rng.randint(0, 4)
     steps = []
@@ -146,6 +161,15 @@ def one(case, acc):
                 r = book.make('func-true#%d' % i, True)
             pairs.append((S(ev['pat']), r))
             expected_resp[i] = resp
+        seen_markers = []
+        if case.get('flood'):
+            def rec(d):
+                seen_markers.append(d['child'].after)
+                book.calls.append(('flood', d.get('event_count'), 'child' in d))
+                if len(seen_markers) == 3:
+                    time.sleep(0.3)        # let the output pile up so that reads come back full
+                return None
+            pairs.append((S(r'<<\d{5}>>'), rec))
         if case['overlap']:
             ov = case['overlap']
             pairs.insert(ov['before'], (S(ov['pat']), S(ov['resp'])))
@@ -242,6 +266,19 @@ def one(case, acc):
             if got != upto:
                 return v(classify_output(got, upto), 'run() returned %d bytes, expected the %d printed up to the stop point: %s' % (
                     len(got), len(upto), diff(got, upto)))
+        # ---- a flood of event occurrences: every one answered exactly once, in stream order
+        if case.get('flood'):
+            wantm = [S('<<%05d>>' % i) for i in range(case['flood'])]
+            acc.count('flood_occurrences_checked', len(wantm))
+            if seen_markers != wantm:
+                k = next((j for j in range(min(len(seen_markers), len(wantm))) if seen_markers[j] != wantm[j]),
+                         min(len(seen_markers), len(wantm)))
+                return v('event-occurrence-missed-or-repeated', 'callback ran for %d of %d occurrences; first discrepancy at #%d (%r)' % (
+                    len(seen_markers), len(wantm), k, seen_markers[k:k + 2]))
+            if [c[1] for c in book.calls] != list(range(len(book.calls))):
+                return v('callback-event_count-wrong', 'event_count sequence is not 0,1,2,...')
+            acc.nontrivial('c12f', case['flood'], case['enc'], case['form'], len(full))
+            return True
         # ---- responses: exactly once each, in stream order
         want = []
         for i, ev in enumerate(case['events']):
